@@ -1,6 +1,8 @@
-(* GroupProofs9.v — engine G, part 9 (C15): with an inode-determined fault oracle a file whose read failed at a
-   stage is in no group that was keyed by that stage (it is never reported as a duplicate of another inode);
-   K5 witness: a path-specific failure on the representative of a hard-link run drops the other links too. *)
+(* GroupProofs9.v — engine G, part 9 (C15): for every fault oracle, every member of a group keyed by a stage shares its
+   inode with a path that was read successfully at that stage; with an inode-determined oracle a file whose read failed
+   at a stage is therefore in no group keyed by that stage.  Regression instance of K5 (repaired): a path-specific
+   failure on the first member of a hard-link run no longer drops the other links; and the remaining blind spot: a path
+   AFTER the representative is never read, so its own unreadability goes unnoticed. *)
 From FV Require Import Base ListLib GroupModel GroupProofs GroupProofs2 GroupProofs3 GroupProofs5 GroupWitness.
 From Coq Require Import Permutation.
 Open Scope N_scope.
@@ -14,10 +16,11 @@ Section NotDuplicate.
   Variable n : nd.
   Variable scanned : list file.
   Hypothesis Hnd : wf_nd n.
-  Hypothesis Hdet : inode_determined n.
   Let o := oracle_of H T.
 
-  Definition ok_at (st : stage) (fs : list file) : Prop := forall f, In f fs -> fails n st f = false.
+  (* some path of the inode of every member was read successfully at stage st *)
+  Definition ok_at (st : stage) (fs : list file) : Prop :=
+    forall f, In f fs -> exists rep, fid rep = fid f /\ fails n st rep = false.
   Definition QP (g : group) : Prop := one_id (gfiles g) \/ ok_at StPrefix (gfiles g).
   Definition QC (P : N) (g : group) : Prop :=
     one_id (gfiles g) \/ (ok_at StPrefix (gfiles g) /\ (P <= glen g -> ok_at StContents (gfiles g))).
@@ -44,9 +47,9 @@ Section NotDuplicate.
     regrouped_from pre hf gs g -> ok_at StPrefix (gfiles g).
   Proof.
     intros Hgs Hpre [_ Hall] f Hf.
-    destruct (Hall f Hf) as (g0 & f0 & _ & _ & Hg0 & Hp0 & Hf0 & _ & _ & _ & _ & _ & _ & ->).
+    destruct (Hall f Hf) as (g0 & f0 & _ & _ & _ & _ & Hg0 & Hp0 & Hf0 & _ & _ & _ & _ & _ & _ & _ & _ & _ & _ & _ & ->).
     destruct (Hgs g0 Hg0) as [Ho|Hk]; [exfalso; apply (pre_multi_not_one g0); auto|].
-    rewrite (Hdet (set_len f0 (glen g)) f0 StPrefix); auto.
+    destruct (Hk f0 Hf0) as (rep & Ei & Hr). exists rep. rewrite set_len_fid. auto.
   Qed.
 
   Lemma prefix_QP P gs g : In g (group_by_prefix o c n P gs) -> QP g.
@@ -55,8 +58,8 @@ Section NotDuplicate.
     apply (rehash_raw_sound _ _ _ _ _ _ Hnd) in Hin. destruct Hin as [[Hin Hp]|[_ Hall]].
     - left. apply unique_count_le1. exact Hp.
     - right. intros f Hf.
-      destruct (Hall f Hf) as (g0 & f0 & g1 & rep & _ & _ & _ & _ & _ & _ & Hi & _ & Hh & ->).
-      rewrite (Hdet (set_len f0 (glen g)) rep StPrefix); [|rewrite set_len_fid; auto]. eapply hf_prefix_ok; eauto.
+      destruct (Hall f Hf) as (g0 & f0 & g1 & rep & gh & hd & _ & _ & _ & _ & _ & _ & _ & _ & _ & Hi & _ & _ & _ & Hh & ->).
+      exists rep. rewrite set_len_fid. split; auto. eapply hf_prefix_ok; eauto.
   Qed.
 
   Lemma later_QP st pre post hf gs g : (forall g0, In g0 gs -> QP g0) -> (forall g0, pre g0 = true -> pre_multi g0 = true) ->
@@ -83,11 +86,11 @@ Section NotDuplicate.
       + left. apply unique_count_le1. exact Hu.
       + right. split; auto. intros Hle. apply N.leb_gt in Hl. lia.
     - right. split; [eapply regrouped_QP; eauto|]. intros _ f Hf. destruct Hreg as [_ Hall].
-      destruct (Hall f Hf) as (g0 & f0 & g1 & rep & _ & _ & _ & _ & _ & _ & Hi & _ & Hh & ->).
-      rewrite (Hdet (set_len f0 (glen g)) rep StContents); [|rewrite set_len_fid; auto]. eapply hf_contents_ok; eauto.
+      destruct (Hall f Hf) as (g0 & f0 & g1 & rep & gh & hd & _ & _ & _ & _ & _ & _ & _ & _ & _ & Hi & _ & _ & _ & Hh & ->).
+      exists rep. rewrite set_len_fid. split; auto. eapply hf_contents_ok; eauto.
   Qed.
 
-  Theorem c15_failed_not_duplicate : transform c = false -> skip_content c = false ->
+  Theorem c15_keyed_has_readable_path : transform c = false -> skip_content c = false ->
     forall g, In g (group_files H T c n scanned) ->
       QC (prefix_len_of c (remove_same_files c (group_by_size c (filter (size_ok c) scanned)))) g.
   Proof.
@@ -107,54 +110,64 @@ Section NotDuplicate.
     - rewrite El. split; [|intros Hle]; intros f Hf; [apply Hk1|apply Hk2; auto]; eapply Permutation_in; eauto.
   Qed.
 
-  Theorem c15_failed_not_reported_transform : transform c = true ->
-    forall g f, In g (group_files H T c n scanned) -> In f (gfiles g) -> fails n StTransform f = false.
+  Theorem c15_transform_has_readable_path : transform c = true ->
+    forall g f, In g (group_files H T c n scanned) -> In f (gfiles g) ->
+      exists rep, fid rep = fid f /\ fails n StTransform rep = false.
   Proof.
     intros Htr g f Hg Hf. unfold group_files, group_files_gen in Hg.
     apply finalize_in in Hg. destruct Hg as (g0 & Hg0 & _ & _ & Hp).
     unfold pipeline in Hg0. rewrite Htr in Hg0. unfold group_transformed in Hg0. fold o in Hg0.
     apply (Permutation_in _ Hp) in Hf.
     apply (rehash_sound _ _ _ _ _ _ _ Hnd) in Hg0. destruct Hg0 as [_ [[_ Hpre]|[_ Hall]]]; [discriminate|].
-    destruct (Hall f Hf) as (ga & f0 & gb & rep & _ & _ & _ & _ & _ & _ & Hi & _ & Hh & ->).
-    rewrite (Hdet (set_len f0 (glen g0)) rep StTransform); [|rewrite set_len_fid; auto]. eapply hf_transform_ok; eauto.
+    destruct (Hall f Hf) as (ga & f0 & gb & rep & gh & hd & _ & _ & _ & _ & _ & _ & _ & _ & _ & Hi & _ & _ & _ & Hh & ->).
+    exists rep. rewrite set_len_fid. split; auto. eapply hf_transform_ok; eauto.
+  Qed.
+
+  (* with an inode-determined oracle: a file whose own read fails at a stage is in no group keyed by that stage *)
+  Theorem c15_failed_not_duplicate : inode_determined n -> transform c = false -> skip_content c = false ->
+    forall g, In g (group_files H T c n scanned) ->
+      one_id (gfiles g) \/
+      ((forall f, In f (gfiles g) -> fails n StPrefix f = false) /\
+       (prefix_len_of c (remove_same_files c (group_by_size c (filter (size_ok c) scanned))) <= glen g ->
+        forall f, In f (gfiles g) -> fails n StContents f = false)).
+  Proof.
+    intros Hdet Htr Hskip g Hg. destruct (c15_keyed_has_readable_path Htr Hskip g Hg) as [Ho|[H1 H2]]; [left; auto|right].
+    split; [|intros Hle]; intros f Hf; [destruct (H1 f Hf) as (rep & Ei & Hr)|destruct (H2 Hle f Hf) as (rep & Ei & Hr)];
+      rewrite <- Hr; symmetry; apply Hdet; auto.
+  Qed.
+
+  Theorem c15_failed_not_reported_transform : inode_determined n -> transform c = true ->
+    forall g f, In g (group_files H T c n scanned) -> In f (gfiles g) -> fails n StTransform f = false.
+  Proof.
+    intros Hdet Htr g f Hg Hf. destruct (c15_transform_has_readable_path Htr g f Hg Hf) as (rep & Ei & Hr).
+    rewrite <- Hr. symmetry. apply Hdet; auto.
   Qed.
 End NotDuplicate.
 
-(* ------------------------------------------------------------------ K5 *)
-(* /a and /b are hard links of one inode, /c is a copy.  Only the path /a cannot be read.  The run of the inode is
-   hashed through its first member /a, `None` removes the whole run, so /b is dropped as well and /c stays alone;
-   if /a had simply not been there, {/b, /c} would have been reported. *)
+(* ------------------------------------------------------------------ K5, repaired *)
+(* /a and /b are hard links of one inode, /c is a copy.  Only the path /a cannot be read.  The run of the inode tries /a,
+   leaves it out, hashes /b and reports {/b, /c} (before the repair `None` for /a removed the whole run and nothing was
+   reported).  Second instance: the links arrive in the order /b, /a: /b is the representative, /a is never read and is
+   reported with /b's hash although it could not have been read — its own unreadability goes unnoticed. *)
 Definition k5_a := mkf 97 1 3 [1;2;3].
 Definition k5_b := mkf 98 1 3 [1;2;3].
 Definition k5_c := mkf 99 2 3 [1;2;3].
 Definition k5_cfg : gcfg := mkcfg None None (fun _ => SSD) (Over 1) [] true false false 0 None.
 Definition k5_nd : nd :=
   mknd (fun _ _ l => isort loc_leb l) (fun _ l => l) (fun _ f => path_eqb (fpath f) [[47]; [97]]).
+Definition k5_nd_rev : nd :=
+  mknd (fun _ _ l => rev (isort loc_leb l)) (fun _ l => l) (fun _ f => path_eqb (fpath f) [[47]; [97]]).
 
 Lemma k5_wf_nd : wf_nd k5_nd.
 Proof. split; intros; cbn; [apply isort_perm|apply Permutation_refl]. Qed.
+Lemma k5_wf_nd_rev : wf_nd k5_nd_rev.
+Proof. split; intros; cbn; [rewrite <- Permutation_rev; apply isort_perm|apply Permutation_refl]. Qed.
 Lemma k5_only_a st f : fails k5_nd st f = true -> fpath f = fpath k5_a.
 Proof. cbn [k5_nd fails]. intros E. apply path_eqb_spec in E. exact E. Qed.
-Lemma k5_faulty_run : group_files toyH idT k5_cfg k5_nd [k5_a; k5_b; k5_c] = [].
+Lemma k5_regression : shows (group_files toyH idT k5_cfg k5_nd [k5_a; k5_b; k5_c]) = [(3, [[[47]; [98]]; [[47]; [99]]])].
 Proof. vm_compute. reflexivity. Qed.
-Lemma k5_without_a : shows (group_files toyH idT k5_cfg (nd_of_mode 0) [k5_b; k5_c]) = [(3, [[[47]; [98]]; [[47]; [99]]])].
+Lemma k5_unread_path_reported :
+  shows (group_files toyH idT k5_cfg k5_nd_rev [k5_a; k5_b; k5_c]) = [(3, [[[47]; [97]]; [[47]; [98]]; [[47]; [99]]])].
 Proof. vm_compute. reflexivity. Qed.
 Lemma k5_not_inode_determined : ~ inode_determined k5_nd.
 Proof. intros Hd. specialize (Hd k5_a k5_b StPrefix eq_refl). vm_compute in Hd. discriminate. Qed.
-
-Lemma k5_witness :
-  exists (H : list N -> hash) (T : list N -> option (list N)) (c : gcfg) (n : nd) (a b x : file),
-    wf_nd n /\ wf_ids [a; b; x] /\ fid a = fid b /\ fpath a <> fpath b /\
-    (forall st f, fails n st f = true -> fpath f = fpath a) /\ (forall st, fails n st b = false) /\
-    group_files H T c n [a; b; x] = [] /\
-    exists g f, In g (group_files H T c (nd_of_mode 0) [b; x]) /\ In f (gfiles g) /\ fpath f = fpath b.
-Proof.
-  exists toyH, idT, k5_cfg, k5_nd, k5_a, k5_b, k5_c.
-  split; [exact k5_wf_nd|]. split; [apply wf_ids_b_sound; vm_compute; reflexivity|].
-  split; [reflexivity|]. split; [intros E; discriminate|]. split; [exact k5_only_a|]. split; [reflexivity|].
-  split; [exact k5_faulty_run|].
-  assert (Hb : existsb (fun g => existsb (fun f => path_eqb (fpath f) (fpath k5_b)) (gfiles g))
-                 (group_files toyH idT k5_cfg (nd_of_mode 0) [k5_b; k5_c]) = true) by (vm_compute; reflexivity).
-  apply existsb_exists in Hb. destruct Hb as (g & Hg & Hb). apply existsb_exists in Hb. destruct Hb as (f & Hf & Hb).
-  apply path_eqb_spec in Hb. exists g, f. split; [exact Hg|]. split; [exact Hf|exact Hb].
-Qed.
